@@ -1902,7 +1902,24 @@ impl<'a> Sim<'a> {
             // The same failure mode gets its own signature when the hidden
             // commit is an empty commit without description (the kind of
             // commit jj abandons automatically when a workspace leaves it).
-            let clause = if c.empty && !c.described { "immutable_commit_stays_visible.discardable" } else { "immutable_commit_stays_visible" };
+            let mut clause = if c.empty && !c.described { "immutable_commit_stays_visible.discardable" } else { "immutable_commit_stays_visible" };
+            // Stale-working-copy recovery snapshots on top of the working
+            // copy's last known operation and merges the result with the
+            // head: a commit made immutable after that operation is amended
+            // by the snapshot. Seen as a merge operation plus a snapshot
+            // operation that moved a workspace away from this commit.
+            let merged = new_ops.iter().any(|o| o.parent_ids().len() > 1);
+            let amended_by_snapshot = new_ops.iter().any(|s| {
+                if !s.metadata().is_snapshot || s.parent_ids().len() != 1 {
+                    return false;
+                }
+                let Ok(parent) = reader.operation(&s.parent_ids()[0]) else { return false };
+                let (Ok(vp), Ok(vs)) = (reader.view_summary(&parent), reader.view_summary(s)) else { return false };
+                vp.wc_commits.iter().any(|(ws, w0)| *w0 == c.id && vs.wc_commits.get(ws).is_some_and(|w1| *w1 != c.id))
+            });
+            if merged && amended_by_snapshot {
+                clause = "immutable_commit_stays_visible.snapshot_taken_at_older_operation";
+            }
             return fail(
                 clause,
                 format!(
